@@ -67,7 +67,7 @@ Proof. exact sprint_leaf_noninterference. Qed.
 Print Assumptions C02_sprint_leaf_noninterference.
 
 (* The same for operands that are TREES: slices, arrays, structs (exported and unexported fields,
-   with %+v / %#v field and type names), maps (keys shared), interface slots - nested to any
+   with %+v / %#v field and type names), maps (keys shared), interface slots, pointers - nested to any
    depth - over related leaves [vrel]; container types not declared safe. *)
 Theorem C02_sprintf_tree_noninterference : forall fuel env f a1 a2 o1 o2,
   osane (orc env) -> no_star f = true -> Forall2 vrel a1 a2 ->
@@ -141,12 +141,14 @@ Definition c02_tree (name : bytes) (id : Z) (tag : bytes) (x : Z) : list value :
           [VIface [105;110;116;101;114;102;97;99;101;32;123;125]%N (Some (VStr c02_ts tag));
            VIface [105;110;116;101;114;102;97;99;101;32;123;125]%N None])];
    VMap (c02_t [109;97;112]%N) false
-     [(VStr c02_ts [107]%N, VIface [105;110;116;101;114;102;97;99;101;32;123;125]%N (Some (VInt c02_ti x)))]].
-Definition c02_fmt2 : bytes := [37;43;118;124;37;118]%N.
+     [(VStr c02_ts [107]%N, VIface [105;110;116;101;114;102;97;99;101;32;123;125]%N (Some (VInt c02_ti x)))];
+   VPtr (c02_t [42;109;97;105;110;46;80]%N) 49152
+     (Some (VStruct (c02_t [109;97;105;110;46;80]%N) [([83]%N, true, VStr c02_ts tag)]))].
+Definition c02_fmt2 : bytes := [37;43;118;124;37;118;124;37;118]%N.
 
 Lemma c02_trees_related : Forall2 vrel (c02_tree [97;98]%N 42 [120;10;121]%N 5) (c02_tree [99;100]%N 4711 [122;10;122]%N 77).
 Proof.
-  unfold c02_tree. constructor; [|constructor; [|constructor]].
+  unfold c02_tree. constructor; [|constructor; [|constructor; [|constructor]]].
   - apply vr_struct; [reflexivity | reflexivity|].
     constructor; [split; [reflexivity|]; apply vr_leaf; c02_lrel; split; [reflexivity | c02_srel]|].
     constructor; [split; [reflexivity|]; apply vr_leaf; c02_lrel; split; [reflexivity|]; unfold irel, Fmt.two64; lia|].
@@ -157,6 +159,8 @@ Proof.
   - apply vr_map; [reflexivity | reflexivity|].
     constructor; [|constructor]. split; [reflexivity|]. split; [reflexivity|].
     apply vr_iface, vr_leaf. c02_lrel. split; [reflexivity|]. unfold irel, Fmt.two64. lia.
+  - apply vr_ptr; [reflexivity | reflexivity|]. apply vr_struct; [reflexivity | reflexivity|].
+    constructor; [|constructor]. split; [reflexivity|]. apply vr_leaf. c02_lrel. split; [reflexivity | c02_srel].
 Qed.
 
 Example C02_tree_nonvacuous :
